@@ -56,7 +56,9 @@ ChunkedReadFails(lay, s, e) ==
                      (e.stop /\ e.p > 0 /\ del2 <= TotalPay(lay))
                         => ChunkOfIdx(lay, s.delivered + 1) = ChunkOfIdx(lay, del2))
         \cup RClause("C07", "no progress although the rest of the coding is present and the output has room",
-                     (~ended /\ s.pos + e.w >= lay.L /\ e.outl >= 1) => e.c + e.p > 0)
+                     \* room is needed only while chunk data is still undelivered: pure framing (size lines, CRLFs,
+                     \* trailers, the final CRLF) must be consumed even into a zero-length output buffer
+                     (~ended /\ s.pos + e.w >= lay.L /\ (e.outl >= 1 \/ s.delivered = TotalPay(lay))) => e.c + e.p > 0)
         \cup RClause("C07", "a read after the end consumed or produced bytes",
                      ended => (e.c = 0 /\ e.p = 0)))
 
